@@ -103,6 +103,24 @@ class AdictModel:
         return o
 
     @staticmethod
+    def op_delattr(ex, o, name):
+        if name not in o.f['kv']:
+            raise ExcSig('KeyError', name)
+        del o.f['kv'][name]
+
+    @staticmethod
+    def op_delitem(ex, o, k):
+        ex.delitem(o.f['kv'], k)
+
+    @staticmethod
+    def m_setdefault(ex, o, k, default=None):
+        return B._d_setdefault(ex, o.f['kv'], k, default)
+
+    @staticmethod
+    def m_pop(ex, o, k, *d):
+        return B._d_pop(ex, o.f['kv'], k, *d)
+
+    @staticmethod
     def op_eq(ex, o, other):
         if isinstance(other, Obj) and 'kv' in other.f:
             return ex.eq(o.f['kv'], other.f['kv'])
